@@ -152,7 +152,7 @@ def judge(check: core.Check, progs: list[dict], label: str) -> None:
     batches = [(i, progs[i : i + 150]) for i in range(0, len(progs), 150)]
     parts = core.pmap(observe_batch, batches, chunk=1)
     obs = [o for part in parts for o in part]
-    verdicts, stats = core.adjudicate("ScopesTrace", "ScopesTrace.cfg", obs, batch=4000, parallel=8)
+    verdicts, stats = core.adjudicate("ScopesTrace", "ScopesTrace.cfg", obs, batch=300, parallel=12)
     check.add_trace_stats(stats)
     check.evals(len(obs))
     by_tid = {o["tid"]: o for o in obs}
@@ -195,14 +195,14 @@ def run(check: core.Check) -> None:
     em = core.require_ok(core.run_tlc("ScopeGenEmit", "ScopeGen.emit3.cfg" if quick else "ScopeGen.emit4.cfg", timeout=3000), "emit")
     check.add_tlc("emit", em)
     progs = core.emitted_json(em)
-    limit = 60000 if quick else 10**7
+    limit = 2200 if quick else 10**7
     exhaustive = len(progs) <= limit
     if not exhaustive:
         progs = rnd.sample(progs, limit)
     check.cov["exhaustive"] = exhaustive
     check.cov["rule"] = "function bodies built by TLC's generator (ScopeGen.tla); non-trivial = contains a control construct"
     judge(check, progs, "tlc-exhaustive")
-    sim = core.simulate_cases("ScopeGenEmit", "ScopeGen.sim.cfg", 4000 if quick else 80000, depth=30, seed=check.seed + 9,
+    sim = core.simulate_cases("ScopeGenEmit", "ScopeGen.sim.cfg", 300 if quick else 12000, depth=30, seed=check.seed + 9,
                               check=check)
     judge(check, sim, "tlc-simulate")
 
